@@ -504,12 +504,14 @@ def controller_correspondence(ctx):
     il = _lines(isrc, [("if  (isnormal(integrator_error)){", 0, 1), ("if (isnormal(min_timescale2)){", 0, 1),
                        ("if (fabs(dt_new)<r->ri_ias15.min_dt) dt_new = copysign(r->ri_ias15.min_dt,dt_new);", 0, 1),
                        ("r->dt = dt_new;", 0, 2), ("r->dt = dt_new;", 1, 2)])
+    bl2 = _lines(bsrc, [("if ( ! tryStep(r, Ns, k, ri_bs->sequence[k], t, dt)) {", 0, 1), ("if (ri_bs->min_dt !=0.0 && dt < ri_bs->min_dt) {", 0, 1),
+                        ("ri_bs->dt_proposed = dt;", 1, 2)])
     bl = _lines(bsrc, [("fac = MAX(power / stepControl4, MIN(1. / power, fac));", 0, 1), ("ri_bs->cost_per_time_unit[k] = ri_bs->cost_per_step[k] / ri_bs->optimal_step[k];", 0, 1),
                        ("switch (k - ri_bs->target_iter) {", 0, 1), ("if (! reject) {", 0, 1)])
     consts = open(bsrc).read()
     ok_consts = all(re.search(p_, consts) for p_ in (r"stepControl4\s*=\s*4\.0;", r"define MAX\(a, b\) \(\(a\) > \(b\) \? \(a\) : \(b\)\)", r"define MIN\(a, b\) \(\(a\) < \(b\) \? \(a\) : \(b\)\)")) \
         and re.search(r"static const double safety_factor\s*=\s*0\.25;", open(isrc).read())
-    if il is None or bl is None or not ok_consts:
+    if il is None or bl is None or bl2 is None or not ok_consts:
         ctx.obligation("correspondence:C01 step-size controllers located in the source", False, "ias15 lines %s, bs lines %s, constants %s" % (il, bl, bool(ok_consts)))
         return
     try:
@@ -530,13 +532,18 @@ def controller_correspondence(ctx):
     open(gb, "w").write(head + bp("integrator_bs.c", bl[0], "BF %.17g %.17g %.17g %d %.17g", "fac, power, error, k, dt")
                         + bp("integrator_bs.c", bl[1], "BO %.17g", "ri_bs->optimal_step[k]")
                         + bp("integrator_bs.c", bl[2], "BS %d %d %.17g %d %d", "k, ri_bs->target_iter, error, ri_bs->previous_rejected, ri_bs->first_or_last_step")
-                        + bp("integrator_bs.c", bl[3], "BE %d %d", "reject, k") + "run\nquit\n")
+                        + bp("integrator_bs.c", bl[3], "BE %d %d", "reject, k")
+                        + "break reb_integrator_bs_step\ncommands\nsilent\nprintf \"BA %.17g\\n\", dt\ncontinue\nend\n"
+                        + bp("integrator_bs.c", bl2[0], "BT %d %.17g", "k, dt")
+                        + bp("integrator_bs.c", bl2[1], "BC %.17g %.17g %.17g %d", "dt, ri_bs->min_dt, ri_bs->max_dt, forward")
+                        + bp("integrator_bs.c", bl2[2], "BP %.17g", "dt") + "run\nquit\n")
     iruns = [(m, e, mn, dt) for m in (0, 1, 2, 3) for e in (9, 6) for mn, dt in (("step", 1.5), ("unsync", -1.5), ("step", -1e-4))]   # large first step: rejections; tiny first step: growth limit
-    bruns = [(e, dt) for e in (5, 8, 11) for dt in (1.0, -1.0)]
+    bruns = [(e, dt, md, o1) for e in (5, 8, 11) for dt in (1.0, -1.0) for md, o1 in (("step", 0), ("unsync", 5))] + [(8, 0.3, "unsync", 30), (8, -0.004, "unsync", 2)]
+    # mode "unsync" for ctl:bs: min_dt = 1e-3, max_dt = o1 * 0.01 (the first requested step may be above / below the limits)
     nsteps = ctx.scale(25, 120)
     with ThreadPoolExecutor(max_workers=vlib.JOBS) as ex:
         it = list(ex.map(lambda a: _gdb_run(exe, gi, ["ctl:ias15", str(a[0]), str(a[1]), str(nsteps), a[2], repr(a[3])], ("IE", "IT", "IR", "IJ", "IA")), iruns))
-        bt = list(ex.map(lambda a: _gdb_run(exe, gb, ["ctl:bs", "0", str(a[0]), str(nsteps), "step", repr(a[1])], ("BF", "BO", "BS", "BE")), bruns))
+        bt = list(ex.map(lambda a: _gdb_run(exe, gb, ["ctl:bs", str(a[3]), str(a[0]), str(nsteps), a[2], repr(a[1])], ("BF", "BO", "BS", "BE", "BA", "BT", "BC", "BP")), bruns))
     for f in (gi, gb):
         try: os.remove(f)
         except OSError: pass
@@ -569,16 +576,35 @@ def controller_correspondence(ctx):
         ctx.obligation("correspondence:C01 BS constants regenerated", False, "bs_constants not found in Gen/Schemes.v")
         return
     nbrej = 0
+    natt = 0
     for a, rows in zip(bruns, bt):
-        lab = "bs eps=1e-%d dt0=%g" % a
+        lab = "bs eps=1e-%d dt0=%g limits=%s/%d" % a
         if rows is None:
             bad.append((lab, "no trace")); continue
         try:
             pend_s = []
             k = 0
+            last_arg = None
             while k < len(rows):
                 rw = rows[k]
-                if rw[0] == "BF":
+                if rw[0] == "BA":
+                    last_arg = float(rw[1]); k += 1
+                elif rw[0] == "BT":
+                    # the step attempted (column 0 of this call) is the step that was requested, bit for bit
+                    if int(rw[1]) == 0:
+                        natt += 1
+                        if last_arg is None or float(rw[2]) != last_arg:
+                            bad.append((lab, "reb_integrator_bs_step was asked for dt=%r but attempts dt=%s" % (last_arg, rw[2])))
+                    k += 1
+                elif rw[0] == "BC":
+                    if k + 1 >= len(rows) or rows[k + 1][0] != "BP":
+                        raise ValueError("BC without BP")
+                    cases.append(("(bsF_clamp %s %s %s %s)" % (H(rw[2]), H(rw[3]), H(rw[1]), "true" if int(rw[4]) else "false"), [float(rows[k + 1][1])])); labels.append(lab)
+                    ctx.case(key=("bsclamp", a[0], float(rw[2]) != 0, float(rw[1]) < float(rw[2]), float(rw[3]) != 0 and float(rw[1]) > float(rw[3])))
+                    k += 2
+                elif rw[0] == "BP":
+                    k += 1          # the early "in case of early fail" assignment
+                elif rw[0] == "BF":
                     if k + 1 >= len(rows) or rows[k + 1][0] != "BO":
                         raise ValueError("BF without BO")
                     # the two pow() results against the regenerated constants (same libm through Python's math.pow)
@@ -633,6 +659,7 @@ def controller_correspondence(ctx):
         ctx.traces += len(cases)
     ctx.obligation("correspondence:C01 step-size controllers model(binary64) == library, bit-for-bit: %d IAS15 decisions (%d rejections), %d BS factor/decision records (%d rejections)"
                    % (n_ias, nrej, len(cases) - n_ias, nbrej), not bad and n_ias > 50 and nrej > 0 and len(cases) - n_ias > 50, "; ".join("%s: %s" % b_ for b_ in bad[:5]) or "too few records")
+    ctx.extra["bs_attempted_equals_requested_checked"] = natt
     ctx.extra["controller_records"] = {"ias15": n_ias, "ias15_rejections": nrej, "bs": len(cases) - n_ias, "bs_rejections": nbrej}
 
 
@@ -674,7 +701,7 @@ def history_probes(ctx, libdir):
 def search(ctx, libdir, only=None):
     """the library-only searcher, one child process per group (in parallel); every scenario writes a heartbeat line first, so that a
     hang (per-group wall-clock limit) or a crash of the library is reported with the concrete input that was running."""
-    groups = ["lattice", "adaptive", "ode", "warn", "history", "corners"] if not only else ["lattice"]
+    groups = ["lattice", "adaptive", "ode", "bsopt", "warn", "history", "corners"] if not only else ["lattice"]
     limit = ctx.scale(150, 1500)       # quick-tier groups normally need 5..30 s each, also on a loaded machine
     d = os.path.join(vlib.BUILD, "c01drv"); os.makedirs(d, exist_ok=True)
     def one(g):
